@@ -206,7 +206,9 @@ def directed():
     inf = float('inf')
     tup = lambda *xs: {'t': 'tuple', 'v': list(xs)}
     simple = [
-        # witnesses of the known findings
+        # witnesses of the known findings and of the repaired defects (regression)
+        ({'type': 'Number', 'bounds': [ev(inf), None], 'default': NONE}, NONE),
+        ({'type': 'Integer', 'bounds': [None, ev(float('nan'))], 'default': NONE, 'allow_None': True}, NONE),
         ({'type': 'Number', 'bounds': [ev(-inf), ev(3)]}, ev(1.5)),
         ({'type': 'Number', 'bounds': [ev(0), ev(inf)]}, ev(1.5)),
         ({'type': 'Range', 'bounds': [ev(-inf), None]}, ev((1, 2))),
@@ -330,10 +332,11 @@ def classify(case, impl, fail):
         return None
     t = d['type']
     if what.startswith('schema is not a well-formed'):
-        if t in ('Integer', 'Number', 'Range') and d.get('bounds') and any(_nonfinite(b) for b in d['bounds']):
-            return 'nonfinite-bound-in-schema'
-        if t == 'Selector' and d['objects'] == []:
-            return 'selector-without-objects-empty-anyof'
+        if t in ('Integer', 'Number', 'Range') and d.get('bounds'):
+            lo, hi = d['bounds']
+            # -inf below / +inf above are skipped by declare_numeric_bounds; the other non-finite bounds are not
+            if (_nonfinite(lo) and lo['v'] != '-inf') or (_nonfinite(hi) and hi['v'] != 'inf'):
+                return 'wrong-side-infinite-or-nan-bound-in-schema'
         return None
     if not what.startswith('serialized value does not validate'):
         return None
@@ -343,9 +346,6 @@ def classify(case, impl, fail):
     sv = ser[pname]
     bools = [x for x in (sv if isinstance(sv, list) else [sv]) if isinstance(x, bool)]
     if sv is None:
-        if t in ('Selector', 'ListSelector') and d.get('allow_None') is not True and \
-                (t == 'ListSelector' or not any(o == NONE for o in d['objects'])):
-            return 'selector-none-default-not-nullable'
         return None
     if t in ('ClassSelector', 'List'):
         atoms = _atoms(d.get('class_') if t == 'ClassSelector' else d.get('item_type'))
